@@ -1020,7 +1020,7 @@ def _oracle_main(case, exp, out):
 def gen_ref(rng, cstage, p, declared_files=None):
     long = True if p['stage'] != cstage else rng.random() < 0.4
     return {'comp': True, 'stage': p['stage'], 'long': long, 'name': p['name'],
-            'file': rng.choice(FILES), 'method': rng.choice(METHODS)}
+            'file': rng.choice(FILES), 'method': 'ref' if rng.random() < 0.25 else rng.choice(METHODS)}
 
 
 # what a command line puts around a reference: (text right before it, text GLUED right after it).  The second half of the
@@ -1031,6 +1031,28 @@ AROUND = [('', ''), ('', ''), ('', ''), ('--in=', ''), ('-f ', ''), ('"', '"'), 
           ('', '>all.csv'), ('', ';echo done'), ('sort <', '&'), ('', '&&'), ('x=$(cat ', '); echo $x'),
           ('', ');'), ('[ -f ', ' ]'), ('', '>>log'), ('', '|tee o.txt')]
 PATHS = ['/sub/x.txt', '/f*.dat', '/a/b', '/x.txt', '/A', '/out/e.csv', '/res_1.csv', '/d.ir/f.dat']
+
+
+# file names with characters outside [A-Za-z0-9_.*]: after an AGGREGATED reference the code cuts such a path at the first
+# of them (finding C03-aggregated-path-cut-at-non-word-character); they are generated once the coordinator has recorded
+# the finding (known_findings.json), so that the run rediscovers it; until then the family is left out
+PATHS_ODD = ['/out-1.txt', '/a+b.csv', '/run~1/x.dat', '/e@2.csv', '/d-1/f.dat']
+ODD_FINDING = 'C03-aggregated-path-cut-at-non-word-character'
+_ODD = []
+
+
+def odd_paths_enabled():
+    if not _ODD:
+        try:
+            with open(os.path.join(os.path.dirname(os.path.dirname(os.path.abspath(__file__))),
+                                   'known_findings.json')) as f:
+                doc = json.load(f)
+            entries = doc if isinstance(doc, list) else (doc.get('findings') or [])
+            _ODD.append(any(isinstance(e, dict) and e.get('id') == ODD_FINDING and e.get('status') == 'known'
+                            for e in entries))
+        except Exception:  # noqa
+            _ODD.append(False)
+    return _ODD[0]
 
 
 def render_argt(argt):
@@ -1044,7 +1066,12 @@ def gen_args(rng, c, comps):
     spelling used, the file path appended to it and the comma of the aggregator's `path,` idiom): the oracle knows what
     the user wrote around each reference."""
     argt = []
+    uses = list(c['refs'])
     for r in c['refs']:
+        # the same reference used again (another file of the same producer)
+        if r['comp'] and r['method'] == 'ref' and rng.random() < 0.3:
+            uses.insert(rng.randrange(len(uses) + 1), r)
+    for r in uses:
         if rng.random() < 0.2 or (r['comp'] and r['method'] == 'copyout'):
             # (`:copyout` on a command line is read as `:copy` + `out` by the loader's argument scanner -- not C03)
             continue
@@ -1056,9 +1083,11 @@ def gen_args(rng, c, comps):
             if r['stage'] == c['stage'] and rng.random() < 0.3:
                 alt['long'] = not r['long']
             tok = {'ref': alt, 'path': '', 'comma': False}
-            if r['method'] == 'ref' and rng.random() < 0.45:
+            if r['method'] == 'ref' and rng.random() < 0.5:
                 tok['path'] = rng.choice(PATHS)
                 tok['comma'] = rng.random() < 0.2
+                if odd_paths_enabled() and rng.random() < 0.1:
+                    tok['path'] = rng.choice(PATHS_ODD)
             if pre:
                 argt.append({'lit': pre})
             argt.append(tok)
@@ -1601,8 +1630,33 @@ def classify_aggregator_repeat(what, case, detail):
     return what == 'wrong-references' and aggregator_repeats_reference(_eff_of(case, detail))
 
 
+ODD_PATH_CHAR = re.compile(r'[^A-Za-z0-9_.*/]')
+
+
+def aggregated_path_with_odd_character(case):
+    """some aggregating component uses, on its command line, a reference to a replicated producer followed by a file
+    path with a character outside [A-Za-z0-9_.*] (out-1.txt, a+b.csv)"""
+    exp = expected(case)
+    if 'error' in exp:
+        return False
+    region_of = {o['of'] for o in exp['comps'] if o['replica'] is not None}
+    for c in case['comps']:
+        if is_agg(case, c) is True:
+            for t in command_line_tokens(c) or []:
+                if 'ref' in t and cid(t['ref']['stage'], t['ref']['name']) in region_of \
+                        and ODD_PATH_CHAR.search(t.get('path') or ''):
+                    return True
+    return False
+
+
+def classify_aggregated_odd_path(what, case, detail):
+    return what == 'aggregator-command-line-does-not-consume-the-copies-in-index-order' \
+        and aggregated_path_with_odd_character(_eff_of(case, detail))
+
+
 CLASSIFIERS = {'c03_reference_spelling_inside_other_token': classify_textual_overlap,
-               'c03_aggregator_declares_reference_twice': classify_aggregator_repeat}
+               'c03_aggregator_declares_reference_twice': classify_aggregator_repeat,
+               'c03_aggregated_path_with_character_outside_word_class': classify_aggregated_odd_path}
 
 
 def scope_tags(case):
